@@ -14,6 +14,8 @@ pub struct Doc<'a> {
     pub r: Rendered,
     pub layout: Layout,
     pub gaps: Vec<usize>,
+    /// line table of the text (for fast position queries on large documents)
+    pub lines: Vec<(usize, usize)>,
 }
 
 /// layout / comment variants used by the navigation checks
@@ -57,22 +59,35 @@ impl<'a> Doc<'a> {
                 format!(" doc{}$", g)
             }
         });
-        Doc { item, pr, sem, r, layout, gaps }
+        let lines = lsptext::lines(&r.text);
+        Doc { item, pr, sem, r, layout, gaps, lines }
     }
     pub fn text(&self) -> &str {
         &self.r.text
     }
+    /// byte offset -> LSP position (same model as `lsptext::position`)
+    pub fn pos(&self, off: usize) -> (u32, u32) {
+        let li = match self.lines.binary_search_by(|(s, _)| s.cmp(&off)) {
+            Ok(i) => i,
+            Err(i) => i.saturating_sub(1),
+        };
+        let (s, e) = self.lines[li];
+        let col: usize = self.r.text[s..off.min(e)].chars().map(|c| c.len_utf16()).sum();
+        (li as u32, col as u32)
+    }
     /// LSP range of token k as JSON
     pub fn tok_range(&self, k: usize) -> Value {
         let (s, e) = self.r.tok_ranges[k];
-        let (l1, c1) = lsptext::position(&self.r.text, s);
-        let (l2, c2) = lsptext::position(&self.r.text, e);
+        let (l1, c1) = self.pos(s);
+        let (l2, c2) = self.pos(e);
         json!({"start": {"line": l1, "character": c1}, "end": {"line": l2, "character": c2}})
     }
     /// positions (line, char) of every column inside token k: first, interior, last
     pub fn tok_positions(&self, k: usize) -> Vec<(u32, u32)> {
         let (s, e) = self.r.tok_ranges[k];
-        (s..e).map(|o| lsptext::position(&self.r.text, o)).collect()
+        // (identifiers of more than 16 bytes: the first and last four columns and the middle)
+        let offs: Vec<usize> = if e - s > 16 { (s..s + 4).chain([s + (e - s) / 2]).chain(e - 4..e).collect() } else { (s..e).collect() };
+        offs.into_iter().filter(|o| self.r.text.is_char_boundary(*o)).map(|o| self.pos(o)).collect()
     }
     /// one position inside the white space in front of token k (None when there is none)
     pub fn gap_position(&self, k: usize) -> Option<(u32, u32)> {
@@ -83,7 +98,7 @@ impl<'a> Doc<'a> {
         if gap.is_empty() || !gap.chars().all(|c| c == ' ' || c == '\t') {
             return None;
         }
-        Some(lsptext::position(&self.r.text, prev_end + gap.len() / 2))
+        Some(self.pos(prev_end + gap.len() / 2))
     }
     pub fn case(&self, extra: Value) -> Value {
         json!({"text": self.r.text, "family": self.item.family, "layout": format!("{:?}", self.layout), "request": extra})
